@@ -143,7 +143,8 @@ def plan():
             it = tuple(None if x is None else T1.index(x) for x in tup)
             seen.add((kind, "t1", it))
             out.append((kind, "t1", it, "thorough"))
-    add("we", "t1", ["a", D], 3, "thorough")
+    # k = 3 is not generated: measured, each of the 8 tuples over {a, default} exceeds 10 GB in CBMC's propositional
+    # reduction (Vec::insert with a solver-dependent position twice) -> outside the claim
     add("we", "t2", ["a", "aa", "ab", D], 2, "thorough")
     add("we", "tp", ["a", "a::", "a::b", D], 2, "thorough")
     return out
